@@ -65,6 +65,10 @@ def run_property(P, tier, seed, replay=None):
     else:
         cases = P.generate(rng, tier)
     impl, model, spec = ({}, {}, {})
+    if tier == "quick" and "KV_SHARD_TIMEOUT" not in os.environ:
+        # a quick run takes a minute; a shard that has not come back after this long hangs (its remaining cases
+        # are then reported as not executed, which breaks the correspondence) - the check itself must never hang
+        kv.SHARD_TIMEOUT = getattr(P, "QUICK_SHARD_TIMEOUT", 420)
     if harness_error is None:
         impl, model, spec = kv.run_cases(cases, bins, drv, impl_shards=getattr(P, "IMPL_SHARDS", kv.NPROC),
                                          per_shard=getattr(P, "PER_SHARD", 50))
